@@ -43,6 +43,11 @@ ASSUMPTIONS = [
     "every case runs on a bank object of its own (enumeration: a copy of a constructed object that "
     "was never used, mutable attributes deep-copied; replay: a newly constructed object - assumed equivalent); the history sub-check's differential oracle is a fresh "
     "object of the same class in the same process (see C05): state shared between objects is not explored",
+    "threshold axis: EFFECTIVE_SUPPORT_THRESHOLD in {default, 1e-4, 2e-3} is set before the bank is constructed "
+    "(supports_threshold) or changed between two reads of one object (threshold_history); 'eps' in every bound "
+    "is the value in force when the bound is evaluated, and W0 comes from the supports as read at that moment. "
+    "Lowering the constant under an existing Gabor / gammatone bank (whose supports and truncation were fixed by "
+    "the value it was built under) is left open",
     "no signal data is involved: pass/fail cannot depend on VERIF_SEED",
 ]
 
@@ -75,6 +80,10 @@ def base_width(bank, i):
 
 def widths_of(w0):
     return [w0, w0 + 1, 2 * w0, 4 * w0 - 1]
+
+
+def widths_of_thr(w0):
+    return [w0, w0 + 1, 2 * w0]
 
 
 def _eval_fw(bank, b, i, w, e):
@@ -160,7 +169,8 @@ def _case(b, i, w, e, pristine=None):
 
 
 @c05.quiet
-def _bank(b, cap):
+@c05.with_threshold
+def _bank(b, cap, widths_of=widths_of):
     r = c05.build(b)
     if r[0] != "ok":
         return c05.unconstructible(r)
@@ -204,6 +214,47 @@ def _bank(b, cap):
 
 @c05.quiet
 def _replay(case):
+    if "t0" in case:
+        return c05.threshold_history_point(case, _threshold_judge)
+    with c05.threshold_in_force(case["bank"].get("threshold")):
+        return _replay_case(case)
+
+
+def threshold_banks(tier):
+    """banks built with a lowered / raised EFFECTIVE_SUPPORT_THRESHOLD in force"""
+    nfs = (1, 3, 11) if tier == "thorough" else (3, 11)
+    out = c05.bank_lattice(c05.ALL_KINDS, nfs, c05.RATES, orders=(3, 4),
+                           ranges_fn=lambda kind, rate: [(20.0, None), (0.0, rate / 2.0)])
+    out = [b for b in out if not (b["name"] == "gammatone" and b.get("scale_l2_norm"))]
+    return c05.thresholded(out)
+
+
+def threshold_history_banks(tier):
+    out = c05.bank_lattice(c05.ALL_KINDS, (3, 10), (8000, 16000), orders=(3, 4), scales=("mel",),
+                           ranges_fn=lambda kind, rate: [(0.0, None), (20.0, None)])
+    out += c05.bank_lattice(("tri", "fbank"), (1, 5, 23), (1000, 8000, 16000), scales=("mel", "linear"),
+                            ranges_fn=lambda kind, rate: [(0.0, None), (20.0, None)])
+    return [b for b in out if not (b["name"] == "gammatone" and b.get("scale_l2_norm"))]
+
+
+def _threshold_judge(bank, b, e):
+    """the supports are read again NOW (second read of the same object): position, and the case oracle in the
+    filter's minimal in-domain buffers"""
+    found, evals = [], 0
+    for i in range(bank.num_filts):
+        evals += 1
+        found += [(what, extra, detail, i, None) for what, extra, detail in _support_position(bank, b, i)]
+        w0 = base_width(bank, i)
+        if w0 is None or w0 > HISTORY_W0_CAP:
+            continue
+        for w in (w0, w0 + 1, 2 * w0 + 1):
+            evals += 1
+            got, _ = _eval_fw(bank, b, i, w, e)
+            found += [(what, extra, detail, i, w) for what, extra, detail in got]
+    return found, evals
+
+
+def _replay_case(case):
     b = case["bank"]
     res = _case(b, case["filt"], case.get("width"), c05.eps())
     if res is None:
@@ -285,6 +336,31 @@ def subchecks(tier, seed):
                                "floor(rate/2), rate/2, rate/2 + 0.5, rate/2 + 1}" % (ODD_RATES, c05.EDGE_RATES),
                       flags="every combination inside the property's domain"),
             replay=_replay, chunk=4))
+    tpts = threshold_banks(tier)
+    subs.append(core.SubCheck(
+        "supports_threshold", tpts, lambda b: _bank(b, cap, widths_of_thr),
+        "banks built AFTER pydrobert.speech.config.EFFECTIVE_SUPPORT_THRESHOLD was set to %r (restored afterwards; "
+        "every chunk of points runs in a forked process of its own): 4 classes (gammatone orders 3, 4, no L2 "
+        "scaling) x 4 scales x num_filts x rates %r x ranges {(20, default), (0, Nyquist)} x every flag combination x every filter x buffer "
+        "widths {W0, W0+1, 2W0}: the oracles of supports_<class> with eps = the threshold IN FORCE" % (
+            c05.THRESHOLDS, c05.RATES),
+        axes=dict(threshold=list(c05.THRESHOLDS), num_filts=sorted(set(b["num_filts"] for b in tpts)),
+                  rate=list(c05.RATES), scale=list(c05.SCALES), w0_cap=cap, flags="every combination in the domain"),
+        replay=_replay, chunk=4))
+    thb = threshold_history_banks(tier)
+    subs.append(core.SubCheck(
+        "threshold_history", c05.threshold_history_points(thb),
+        lambda pt: c05.threshold_history_point(pt, _threshold_judge),
+        "the constant is changed between two reads of ONE bank object: %d banks (4 classes x flags, mel, 3 "
+        "and 10 filters at 8 / 16 kHz; triangular (mel, linear) / Fbank also 1, 5, 23 filters at 1 / 8 / 16 kHz) x transitions %r "
+        "(None = default): the bank is built and all its read-only properties (supports, supports_hz, ...) are "
+        "read with the first value in force, then the second value is set and every filter is checked again on "
+        "the SAME object - supports read anew, buffers {W0, W0+1, 2W0+1} (W0 <= %d) - against the oracles of "
+        "supports_<class> with eps = the value now in force. Demanded for triangular / Fbank banks in both "
+        "directions and for Gabor / gammatone banks after RAISING the constant; lowering it under a Gabor / "
+        "gammatone bank is left open (skipped)" % (len(thb), c05.THRESHOLD_TRANSITIONS, HISTORY_W0_CAP),
+        axes=dict(transitions=[list(t) for t in c05.THRESHOLD_TRANSITIONS], banks=len(thb)),
+        replay=_replay, chunk=2, kind="histories"))
     from . import c06
     subs.append(core.SubCheck(
         "bank_pairs", [(a, b) for a in range(len(c06.PAIR_BANKS)) for b in range(len(c06.PAIR_BANKS)) if a != b],
